@@ -59,6 +59,27 @@ func c03Cells(tier string) []Cell {
 		}
 	}
 
+	// Negative caching: the cached value is nil (the zero value for the typed front-end). It is a value like any other
+	// (appended: the indices of the cells above stay what they were).
+	for front := 0; front < len(frontNames); front++ {
+		for bits := 0; bits < 64; bits++ {
+			for _, init := range []string{"F", "S", "T"} {
+				for _, sc := range []string{"o", "f"} {
+					c := FCfg{
+						Front: front, SU: boolBits(bits, 0), SR: boolBits(bits, 1), FH: boolBits(bits, 2),
+						MS: boolBits(bits, 3), FTNeg: boolBits(bits, 4), Init: init, FailC: "0", Script: sc,
+						Threads: [][]GOp{{{Key: 0}}}, Tags: []string{"nilpre"},
+					}
+					if boolBits(bits, 5) {
+						c.FailC = "1"
+					}
+
+					cells = append(cells, Cell{ID: c.ID()})
+				}
+			}
+		}
+	}
+
 	return cells
 }
 
@@ -297,6 +318,16 @@ func classifyResult(h *fh, e FEv) string {
 	}
 
 	if e.Nil {
+		if h.nilPre {
+			// the cached value itself is nil (negative caching): a value like any other
+			switch h.cfg.Init[e.Key] {
+			case 'F':
+				return ref.RFresh
+			case 'S', 'T':
+				return ref.RStale
+			}
+		}
+
 		return "zero-value-nil-error"
 	}
 
@@ -385,6 +416,8 @@ func c03Check(h *fh, r *vsched.Result) []Violation {
 	case found && !isNil && t.O == "b":
 		have = "new"
 	case found && !isNil && t.O == "pre":
+		have = "pre"
+	case found && h.nilPre:
 		have = "pre"
 	case found:
 		have = "zero"
